@@ -15,6 +15,11 @@
 (T) TRACE: the post-processing function is probed on basis result vectors (-> A, b) and spec/trace/Trace_MeasSplit.tla decides
     A * Res(outs) + b = Res(in) exactly in Z[zeta_16][1/2], plus GroupRel and ZBasis, for every recorded call.
 Rejected inputs must raise (class recorded); when a transform does not raise, the results must agree.
+(P) product terms also carry operator wires outside their Pauli support (explicit Identity factors, pairs of equal Pauli factors
+    that cancel; add_pads / word_op): the specification's sentence is unchanged, the PennyLane operator is not.
+(B) REPLAY: spec/gen/BatchDimsGen.tla enumerates all parameter sets (leading dimensions per tape parameter, transformed positions)
+    for batch_params (trainable / all_operations) and batch_input, decides accept / reject and the exact parameters of every output
+    tape (invariant Laws on the model); every case is replayed into the real transform (verdict, tape parameters, stacking order).
 """
 import json
 import random
@@ -141,6 +146,7 @@ def gen_meas_diag(rng, n, qwc=True):
 
 def gen_cases(tier, seed):
     rng = random.Random(2000 + seed)
+    prng = random.Random(52000 + seed)          # independent stream: identity / cancelling factors inside product terms
     ncase = 420 if tier == "quick" else 5000
     cases = []
     for i in range(ncase):
@@ -180,22 +186,48 @@ def gen_cases(tier, seed):
             if batch is None and tr[0] in ("bexp", "bpar", "binp"):
                 circ.append(devsim.random_gate(rng, n, M, ["r1"]))
                 batch = (len(circ) - 1, [rng.randrange(16) for _ in range(3)])
+        if tr[0] != "sign" and n >= 2 and prng.random() < (0.75 if tr[0] in ("diag", "snc+diag") else 0.35):
+            meas = [dict(m) for m in meas]
+            for m in meas:
+                if m["k"] in ("expval", "var"):
+                    add_pads(prng, m, n)
         cases.append({"id": i, "n": n, "circ": circ, "labels": devsim.labels_for(rng, n), "meas": meas, "tr": list(tr), "batch": batch,
                       "idstyle": rng.choice(["wire", "wireless"])})
     return cases
 
 
 # ------------------------------------------------------------------------------------------------ PennyLane objects
-def word_op(w, labels, idstyle="wire"):
-    f = [{1: qp.X, 2: qp.Y, 3: qp.Z}[c](labels[i]) for i, c in enumerate(w) if c]
+def word_op(w, labels, idstyle="wire", pad=()):
+    """the word as a PennyLane operator.  pad: factors that do not change the word but put operator wires outside its Pauli
+    support: (pos, 0, front) an explicit Identity factor on wire pos, (pos, letter, front) two equal Pauli factors that cancel."""
+    L = {1: qp.X, 2: qp.Y, 3: qp.Z}
+    f = [L[c](labels[i]) for i, c in enumerate(w) if c]
     if not f:
         return qp.Identity(labels[0]) if idstyle == "wire" else qp.Identity()
+    for pos, kind, front in pad:
+        extra = [qp.Identity(labels[pos])] if kind == 0 else [L[kind](labels[pos]), L[kind](labels[pos])]
+        f = extra + f if front else f + extra
     return f[0] if len(f) == 1 else qp.prod(*f)
+
+
+def add_pads(prng, m, n):
+    """decorate the terms of an expval / var measurement with identity / cancelling factors (the sentence is unchanged)"""
+    pads, any_ = [], False
+    for _, w in m["terms"]:
+        free = [i for i, x in enumerate(w) if not x]
+        if any(w) and free and prng.random() < 0.4:
+            pads.append([(prng.choice(free), 0 if prng.random() < 0.7 else prng.randint(1, 3), prng.random() < 0.5)])
+            any_ = True
+        else:
+            pads.append([])
+    if any_:
+        m["pad"] = pads
 
 
 def build_obs(m, labels, idstyle):
     terms, st = m["terms"], m.get("style", "sum")
-    ops = [word_op(w, labels, idstyle if st not in ("word", "sprod") else "wire") for _, w in terms]
+    pads = m.get("pad") or [[] for _ in terms]
+    ops = [word_op(w, labels, idstyle if st not in ("word", "sprod") else "wire", pd) for (_, w), pd in zip(terms, pads)]
     cs = [c for c, _ in terms]
     if st == "word":
         return ops[0]
@@ -387,6 +419,7 @@ def run(tier, seed):
     agg, pool = Agg(), ma.EvalPool()
     st = {"calls": 0, "rejected": {}, "expected_rejections": 0, "out_tapes": 0, "multi_tape_batches": 0, "by_transform": {},
           "broadcast_cases": 0, "identity_or_offset_terms": 0, "repeated_words": 0, "nonpauli_obs": 0, "not_rejected_nonqwc": 0,
+          "terms_with_wires_outside_support": 0, "diag_calls_with_such_terms": 0,
           "diag_refused_qwc_input": {}, "diag_refusal_examples": []}
     work = []
     for c in cases:
@@ -449,8 +482,12 @@ def run(tier, seed):
         st["identity_or_offset_terms"] += any(m["k"] in ("expval", "var") and any(not any(w) for _, w in m["terms"]) for m in c["meas"])
         st["repeated_words"] += any(m["k"] in ("expval", "var") and len({w for _, w in m["terms"]}) < len(m["terms"]) for m in c["meas"])
         st["nonpauli_obs"] += any(m["k"] in ("herm", "proj", "had") for m in c["meas"])
+        npad = sum(bool(pd) for m in c["meas"] for pd in m.get("pad", []))
+        st["terms_with_wires_outside_support"] += npad
+        st["diag_calls_with_such_terms"] += bool(npad) and c["tr"][0] in ("diag", "snc+diag")
         work.append({"c": c, "key": key, "wpos": wpos, "in_desc": in_desc, "in_ids": in_ids, "outs": o_info, "fn": fn, "rel": rel, "tape": tape})
     stats = pool.run(PID, M)
+    bd = batch_dims_replay(tier, seed, agg)
     # ---- replay: real post-processing on exact output results vs exact input result
     traces, tmeta, n_cmp, nontriv, samples = [], [], 0, set(), []
     n_probe_fail = 0
@@ -537,9 +574,10 @@ def run(tier, seed):
     need = {"coefficient", "relation", "basis", "order"}
     if not need <= set(rejected_controls):
         raise lib.MachineryError(f"negative controls not all exercised: {sorted(rejected_controls)}")
-    if vc.get("ok", 0) < 50 or st["expected_rejections"] == 0 or st["multi_tape_batches"] < 20:
+    if vc.get("ok", 0) < 50 or st["expected_rejections"] == 0 or st["multi_tape_batches"] < 20 or st["diag_calls_with_such_terms"] < 15:
         raise lib.MachineryError(f"vacuity: {vc} {st}")
-    cov = {"states": stats["distinct"] + r["distinct"], "transitions": stats["generated"] + r["generated"],
+    cov = {"states": stats["distinct"] + r["distinct"] + bd.pop("distinct"), "transitions": stats["generated"] + r["generated"] + bd.pop("generated"),
+           "batch_dimension_replay": bd,
            "traces_validated_against_impl": len(traces) - len(controls), "evaluations": n_cmp, "distinct_nontrivial": len(nontriv),
            "rule": "distinct (transform, input measurement list, output measurement lists) triples whose recombined exact result was compared "
                    "with the exact input result and agreed",
@@ -549,9 +587,112 @@ def run(tier, seed):
     return CheckResult(coverage=cov, violations=agg.violations(), assumptions=[
         "angles on the lattice 4*pi/16, dyadic coefficients; circuits and measurement lists are sampled (seeded), not exhaustive",
         "values of Hermitian / Projector / Hadamard observables and float comparison (1e-8) are computed with numpy from TLC's exact state",
-        "sample / counts post-processing and the circuit mode of sign_expand are not covered (partial); batch_params / batch_input are applied to tapes with one broadcast parameter",
+        "sample / counts post-processing and the circuit mode of sign_expand are not covered (partial); result values of batch_params / batch_input are "
+        "checked on tapes with one broadcast parameter; for several batched parameters (BatchDimsGen) the accept / reject verdict, the parameters of every "
+        "output tape and the stacking order of the post-processing are checked, not executed values",
         "the exact clause Recombine treats the post-processing function as the affine map measured by probing it on basis vectors "
         "(affinity is confirmed numerically on the actual results)"])
+
+
+# ------------------------------------------------------------------------------------------------ batch dimensions (REPLAY)
+BD_GATES = [qp.RX, qp.RY, qp.RZ, qp.PhaseShift]
+
+
+def bd_call(x, seed):
+    """run the real transform on the parameter set of one BatchDimsGen case -> observation"""
+    k = len(x["dims"])
+    ops = []
+    for i in range(k):
+        a = x["params"][i]
+        val = lib.angle_of(a[0], M) if x["dims"][i] == 0 else np.array([lib.angle_of(v, M) for v in a])
+        ops.append(BD_GATES[(i + seed) % 4](val, wires=i % 2))
+        if i == 0:
+            ops.append(qp.CNOT([0, 1]))
+    meas = [qp.expval(qp.Z(0) @ qp.X(1)), qp.probs(wires=[1])]
+    sel = [i for i in range(k) if x["sel"][i]]
+    rest = [i for i in range(k) if not x["sel"][i]]
+    try:
+        if x["tr"] == "params":
+            tapes, fn = qp.batch_params(qp.tape.QuantumScript(ops, meas, trainable_params=sel))
+        elif x["tr"] == "params_all":
+            tapes, fn = qp.batch_params(qp.tape.QuantumScript(ops, meas, trainable_params=[]), all_operations=True)
+        else:
+            tapes, fn = qp.batch_input(qp.tape.QuantumScript(ops, meas, trainable_params=rest), argnum=sel)
+    except Exception as e:  # noqa: BLE001
+        return {"raised": type(e).__name__, "msg": str(e)[:120]}
+    obs = {"raised": None, "tapes": [], "stack": None}
+    for t in tapes:
+        ps = t.get_parameters(trainable_only=False)
+        obs["tapes"].append([float(p_) if np.ndim(p_) == 0 else None for p_ in ps])
+    try:
+        res = tuple((float(b + 1), np.array([b + 1.0, -(b + 1.0)])) for b in range(len(tapes)))
+        got = fn(res)
+        obs["stack"] = [np.asarray(got[0], dtype=float).tolist(), np.asarray(got[1], dtype=float).tolist()]
+    except Exception as e:  # noqa: BLE001
+        obs["stack"] = f"{type(e).__name__}: {e}"
+    return obs
+
+
+def bd_compare(x, obs):
+    """None when the observation is what the specification expects, else (key suffix, message)"""
+    if x["why"] != "accept":
+        if obs["raised"] is None:
+            return (f"accepted-undefined-batch:{x['why']}", f"returned {len(obs['tapes'])} tapes instead of raising")
+        return None
+    if obs["raised"] is not None:
+        return (f"unexpected-exception:{obs['raised']}", f"raised {obs['raised']}: {obs['msg']}")
+    exp = [[lib.angle_of(a, M) for a in row] for row in x["tapes"]]
+    if len(obs["tapes"]) != len(exp):
+        return ("batch-length", f"{len(obs['tapes'])} tapes, expected {len(exp)}")
+    for b, (g, e) in enumerate(zip(obs["tapes"], exp)):
+        if len(g) != len(e) or any(v is None or abs(v - w) > 1e-12 for v, w in zip(g, e)):
+            return ("tape-parameters", f"tape {b} has parameters {g}, expected {e}")
+    d = len(exp)
+    want = [[b + 1.0 for b in range(d)], [[b + 1.0, -(b + 1.0)] for b in range(d)]]
+    if obs["stack"] != want:
+        return ("stacking-order", f"post-processing of marker results gave {obs['stack']}, expected {want}")
+    return None
+
+
+def batch_dims_replay(tier, seed, agg):
+    dims = [0, 2, 3] if tier == "quick" else [0, 1, 2, 3, 5]
+    maxk = 3 if tier == "quick" else 4
+    g = lib.run_tlc_mc("BatchDimsGen", {}, lib.workdir(PID, "batchdims"),
+                       constants={"Dims": "{" + ", ".join(map(str, dims)) + "}", "MaxK": maxk, "Seed": seed % 16}, invariants=["Laws"], timeout=1500)
+    if g.invariant_violated:
+        raise lib.MachineryError("BatchDimsGen violates its own clauses (oracle error): " + g.out[-1200:])
+    lib.require_ok(g, "BatchDimsGen")
+    cases = sorted(g.json_lines, key=lambda x: json.dumps(x, sort_keys=True))
+    stt = {"calls": len(cases), "accepted": 0, "rejected_by_reason": {}, "later_parameter_longer": 0, "negative_controls_rejected": 0,
+           "distinct": g.distinct, "generated": g.generated}
+    ctl, nbad = {}, 0
+    for x in cases:
+        obs = bd_call(x, seed)
+        bad = bd_compare(x, obs)
+        seld = [d for d, s_ in zip(x["dims"], x["sel"]) if s_]
+        if x["why"] == "accept":
+            stt["accepted"] += 1
+        else:
+            stt["rejected_by_reason"][x["why"]] = stt["rejected_by_reason"].get(x["why"], 0) + 1
+            stt["later_parameter_longer"] += x["why"] == "dims-differ" and any(d > seld[0] for d in seld[1:])
+        if bad:
+            nbad += 1
+            agg.add(f"batchdims:{x['tr']}:{bad[0]}", f"{x['tr']} on parameters with leading dimensions {x['dims']} (0 = scalar), transformed positions "
+                    f"{[i for i, s_ in enumerate(x['sel']) if s_]}: {bad[1]} (specification: {x['why']})", {"case": x})
+            continue
+        # negative controls: a flipped verdict / a permuted expected batch must be noticed by the comparator
+        kind = "verdict-accept" if x["why"] == "accept" else "verdict-reject"
+        if kind not in ctl:
+            y = dict(x, why="dims-differ", tapes=[]) if x["why"] == "accept" else dict(x, why="accept", tapes=[[0] * len(x["dims"])])
+            ctl[kind] = bd_compare(y, obs) is not None
+        if x["why"] == "accept" and len(x["tapes"]) >= 2 and x["tapes"][0] != x["tapes"][1] and "order" not in ctl:
+            ctl["order"] = bd_compare(dict(x, tapes=[x["tapes"][1], x["tapes"][0]] + x["tapes"][2:]), obs) is not None
+    if not nbad and (set(ctl) != {"verdict-accept", "verdict-reject", "order"} or not all(ctl.values())):
+        raise lib.MachineryError(f"batch-dimension negative controls accepted: {ctl}")
+    stt["negative_controls_rejected"] = sum(ctl.values())
+    if stt["accepted"] < 20 or stt["later_parameter_longer"] < 10 or len(stt["rejected_by_reason"]) < 3:
+        raise lib.MachineryError(f"vacuity (batch dimensions): {stt}")
+    return stt
 
 
 def _show(res, idx, nmeas):
